@@ -62,7 +62,7 @@ NEEDS = {
  "C31c-unconstrained-times-assume-samples-first": "sites_time_from_ts(unconstrained=True) on a dated input where a non-sample node has an id below num_samples and its mn differs from its constrained time",
  "C03c-tip-samples-unpinned-in-projection": "a historical tip sample (age > 0, no children) whose parent's unconstrained age is younger, with constr_iterations > 0",
  "C01c-forced-pass-lowers-child-below-sample-parent": "a sample that is the parent of a non-sample node whose age is within min_branch_length of it, grandchildren within 2*min_branch_length (large min_branch_length)",
- "C27c-unmodified-shortcut-returns-input": "constrain_ages on ages that need only adjustments below numpy isclose tolerance (relative 1e-5): the unconstrained input array is returned",
+ "C27c-unmodified-shortcut-returns-input": "constrain_ages with max_iterations > 0 on ages whose violations are ties or near-ties within numpy isclose tolerance (1e-8 + 1e-5*age): the unconstrained input array is returned",
  "C26b-pelt-prune-without-penalty-slack": "_poisson_changepoints with penalty > 0 and >= 3 observations whose optimum passes through a changepoint that was not the running argmin",
  "C27b-forced-pass-skips-sample-sample-edges": "a sample-to-sample edge (internal / ancient sample above a sample) whose child is raised or whose length is below min_branch_length",
  "C29b-isclose-gap-not-split": "genomic coordinates >= ~1e5 and a gap in a node's ancestry narrower than 1e-5 x position",
